@@ -166,19 +166,26 @@ def framing(maxlen):
         if c not in seen: seen.append(c)
     return seen
 pts = [0,200,201,202,203,204,205,206,207]
+# SR/RR frames one word short of (and exactly) holding k reports, followed by a second frame: a decoder that reads
+# past its frame end would see the next frame's octets
+PEEK = [[48,8,200,0],[52,8,200,0],[72,8,200,0],[28,8,201,0],[32,8,201,0],[52,8,201,0]]
 R['C06'] = {
  "quick": [{"h":"VpC06_Framing","a":framing(16)},{"h":"VpC06_Empty"},
            {"h":"VpC06_Local","x":[[4,8,12],[4,8,12],[0],[0]]},
-           {"h":"VpC06_Local","x":[[16],[8],pts,[0]]},{"h":"VpC06_Local","x":[[8],[16],[0],pts]}],
+           {"h":"VpC06_Local","x":[[16],[8],pts,[0]]},{"h":"VpC06_Local","x":[[8],[16],[0],pts]},
+           {"h":"VpC06_Local","a":PEEK}],
  "thorough": [{"h":"VpC06_Framing","a":framing(24)},{"h":"VpC06_Empty"},
            {"h":"VpC06_Local","x":[[4,8,12],[4,8,12],[0],[0]]},
-           {"h":"VpC06_Local","x":[[16,20],[8,12],pts,[0]]},{"h":"VpC06_Local","x":[[8,12],[16,20],[0],pts]}],
- "bounds": "framing: every datagram length 0..16 under every composition into leading frames plus an arbitrary symbolic tail (76 shapes; all bytes other than the listed length fields symbolic, including version bits and packet types) against an independent frame walker; locality: two well-framed frames of {4,8,12}x{4,8,12} octets with symbolic packet types and contents, and 16-octet frames of each packet-type class next to an 8-octet frame, compared packet-by-packet with the separately decoded frames; empty and nil datagrams",
+           {"h":"VpC06_Local","x":[[16,20],[8,12],pts,[0]]},{"h":"VpC06_Local","x":[[8,12],[16,20],[0],pts]},
+           {"h":"VpC06_Local","a":PEEK + [[76,8,200,0],[56,8,201,0],[100,12,200,0]]}],
+ "bounds": "framing: every datagram length 0..16 under every composition into leading frames plus an arbitrary symbolic tail (76 shapes; all bytes other than the listed length fields symbolic, including version bits and packet types) against an independent frame walker; locality: SR frames of 48, 52, 72 and RR frames of 28, 32, 52 octets (one word short of, and exactly, k reports) followed by an 8-octet frame; two well-framed frames of {4,8,12}x{4,8,12} octets with symbolic packet types and contents, and 16-octet frames of each packet-type class next to an 8-octet frame, compared packet-by-packet with the separately decoded frames; empty and nil datagrams",
  "bounds_thorough": "framing up to 24 octets (316 shapes); locality with 16- and 20-octet frames of every packet-type class",
  "require_reach": ["reach:end"], "opts": {"unwind": 100},
  "outside_claim": ["datagrams longer than the bound", "TWCC frames with packet status count above 8"],
 }
 
+XR_TYPED_Q = [[48,207,-1,6],[44,207,-1,7],[20,207,-1,4],[16,207,-1,200]]
+XR_TYPED_T = XR_TYPED_Q + [[24,207,-1,4],[20,207,-1,200]]
 def c09(level):
     big = level == 'thorough'
     L = [4,8,12,16,20,24,28] + ([32,36] if big else [])
@@ -188,10 +195,14 @@ def c09(level):
          {"h":"VpC09","x":[up(12),[207],[-1]]},
          {"h":"VpC09","x":[L,[205],[1,5,0]]},
          {"h":"VpC09","x":[up(20),[205],[11]]},
-         {"h":"VpC09","x":[up(20),[205],[15]]}]
+         {"h":"VpC09","x":[up(20),[205],[15]]},
+         # count*24 passes 255 from 11 reports on: one RR and one SR frame with 11 reports
+         {"h":"VpC09","a":[[272,201,11],[292,200,11]]},
+         # XR frames with the type of the first block fixed: [octets, 207, -1, block type]
+         {"h":"VpC09","a":XR_TYPED_T if big else XR_TYPED_Q}]
     return q
 R['C09'] = {"quick": c09('quick'), "thorough": c09('thorough'),
- "bounds": "one well-framed frame, all bytes other than version, packet type and length symbolic: 4..28 octets for unknown types, SR, RR, APP and RTPFB FMT 1/5/other; 4..16 for SDES, BYE and PSFB (every FMT); 4..12 for XR; 4..20 for CCFB and TWCC (status count <= 8); decode, re-encode (panic freedom), re-decode on every possible output length and field-wise comparison",
+ "bounds": "one well-framed frame, all bytes other than version, packet type and length symbolic: 4..28 octets for unknown types, SR, RR, APP and RTPFB FMT 1/5/other; 4..16 for SDES, BYE and PSFB (every FMT); 4..12 for XR, plus XR frames whose first block type is fixed (48 octets statistics summary, 44 VoIP metrics, 20 receiver reference time, 16 unknown; RLE and DLRR blocks of 24 octets did not finish or hit an unsupported engine path and are not claimed); one RR (272 octets) and one SR (292 octets) frame with 11 reports; 4..20 for CCFB and TWCC (status count <= 8); decode, re-encode (panic freedom), re-decode on every possible output length and field-wise comparison",
  "bounds_thorough": "as quick with frames up to 36 octets for the packet-type classes {not 200..207, 200, 201, 204} and the 205 FMT classes 1, 5 and other; SDES, BYE, PSFB, XR, CCFB and TWCC frames as in the quick tier (longer ones did not finish within 30 minutes)",
  "require_reach": ["reach:end","reach:accepted"], "opts": {"unwind": 100},
  "assumptions": ["TransportLayerCC is compared only when its decoded header is consistent with its content, as the property states"],
@@ -276,6 +287,7 @@ def c01(level):
          {"h":"VpC01_Decode","x":[[9], rng(0, 36 if big else 30)]},
          {"h":"VpC01_Decode","x":[[8], rng(0, 22)]}]
     q.append({"h":"VpC01_TWCCTyped","a":TYPED_T if big else TYPED_Q,"solver":"z3-new"})
+    q.append({"h":"VpC01_XRBlock","a":[[6,n] for n in range(8,57 if big else 53)]+[[7,n] for n in range(8,53 if big else 49)]+[[t,n] for t in (1,2,3,4) for n in range(8,29 if big else 25)]+[[5,n] for n in range(8,25 if big else 21)]+[[200,n] for n in range(8,25 if big else 21)]})
     q.append({"h":"VpC01_TWCCWrap","a":[[3]],"opts":{"unwind":250000,"alloc":300000}})
     fr = framing(16 if big else 12)
     # datagrams of at most 16 octets: no loop of the decoders has more than 17 legitimate iterations
@@ -283,7 +295,7 @@ def c01(level):
     return q
 R['C01'] = {
  "quick": c01('quick'), "thorough": c01('thorough'),
- "bounds": "every buffer length 0..32 for the 17 fixed-layout decoders and sub-decoders, 0..18 for SourceDescription and SourceDescriptionChunk, 0..22 for ExtendedReport, 0..30 for CCFeedbackReport, 0..22 for TransportLayerCC (packet status count <= 8), a 76-octet TransportLayerCC packet with status count 65535 whose chunk area repeats 3 times (8 runs of 8191 received packets, one all-ones vector) with symbolic header fields (the status-counter wrap), plus TransportLayerCC packets of up to 36 octets with typed chunks (one symbolic one-bit/two-bit vector or run-length chunk, or a vector followed by a run; status counts up to 14; the cases of C13); datagram entry points (rtcp.Unmarshal, CompoundPacket.Unmarshal): every length 0..12 under every composition into frames plus arbitrary tail; all byte contents symbolic; every loop unwound under an unwinding assertion (limit 80); allocation counted against 4 MiB + 64 bytes per input byte",
+ "bounds": "every buffer length 0..32 for the 17 fixed-layout decoders and sub-decoders, 0..18 for SourceDescription and SourceDescriptionChunk, 0..22 for ExtendedReport (and, with the type of the first report block fixed: 8..52 octets for statistics-summary, 8..48 for VoIP-metrics, 8..24 for the RLE and receiver-reference-time blocks, 8..20 for DLRR and unknown blocks), 0..30 for CCFeedbackReport, 0..22 for TransportLayerCC (packet status count <= 8), a 76-octet TransportLayerCC packet with status count 65535 whose chunk area repeats 3 times (8 runs of 8191 received packets, one all-ones vector) with symbolic header fields (the status-counter wrap), plus TransportLayerCC packets of up to 36 octets with typed chunks (one symbolic one-bit/two-bit vector or run-length chunk, or a vector followed by a run; status counts up to 14; the cases of C13); datagram entry points (rtcp.Unmarshal, CompoundPacket.Unmarshal): every length 0..12 under every composition into frames plus arbitrary tail; all byte contents symbolic; every loop unwound under an unwinding assertion (limit 80); allocation counted against 4 MiB + 64 bytes per input byte",
  "bounds_thorough": "as quick with lengths 0..40 (fixed-layout), 0..20 (SDES), 0..26 (XR), 0..36 (CCFB), datagrams 0..16, and the thorough list of typed TWCC cases",
  "opts": {"unwind": 80},
  "require_reach": ["reach:end"],
